@@ -27,6 +27,10 @@ CLAIMED = {
          "Level `other`: the load-back step is C10 (assumed PLY engines), join/format over whole commands is not put under contract (only the value level is), unescape(escape(s)) = s is an assumed fact about unicode_escape."),
  "C16": ("other", "TABLE: every entry of the extracted EEMS_COMMANDS literal names a command class of the EEMS libraries (exhaustive; two entries are a recorded known finding); contracts of convert_eems2_commands and its nested find_argument verified by symbolic execution: find_argument = value of the first argument with that name else None (loop invariant), each appended node has result name = own name / NewFieldName / InFieldName in that order, command mapped through the table, NewFieldName/OutFileName arguments dropped in order, line kept, one node per parsed node; bounded: Program.from_source of v2 texts vs their v3 transcriptions on the real loader",
          "Level `other` because two table obligations are not discharged (known finding: ScoreRangeBenefit/ScoreRangeCost do not exist) and the v2 syntax step rests on C10's assumed PLY engines."),
+ "C17": ("other", "bounded stand-in B-CSV on real files (reads of generated tables: row order, blank lines, element type, missing value, other columns irrelevant, file line of a non-numeric cell; bit-identical write->read round trips over a double lattice incl. subnormals, extremes, -0.0), plus proved obligations on the library's error classes (constructible, printable, line kept) and on validate_array_shapes",
+         "Level `other`: csv/open/float/repr/numpy are external; the deciding steps of this property live there, so the claim is the bounded stand-in plus the contracts that can be stated on mpilot's own code. See DESIGN section 6 (C17)."),
+ "C18": ("other", "bounded stand-in B-NC on real NetCDF files (write->read over shapes of rank 1-3, element kinds, mask placements incl. nomask, several results written together, every combination of DataType x MissingValue, template dimension variables/values/attributes copied), plus proved obligations on the library's error classes and on validate_array_shapes / insure_fuzzy",
+         "Level `other`: the netCDF C library and numpy are external. Four genuine defects of the reader/writer were found by this check and repaired (fix: commits)."),
  "C19": ("other", "expression-level contracts proved by SMT (strings): the registry-selection predicate of Program.__init__ equals the statement's `requested library or its sub-module`; duplicate detection per command name among the selected entries; command_library = name -> class over exactly the selected entries; CommandMeta.__new__ registers iff no entry with the same (module, command name) exists and the registry is monotone. load_commands / the import system / Counter are assumed; a bounded history battery (generated packages with prefix-related names, earlier Program constructions and run-time class definitions, compared with a fresh interpreter) runs on the real code",
          "Level `other`: the deciding expressions are under contract and proved for all strings, but Program.__init__ as a whole (set iteration, Counter, import side effects) is not symbolically executed; history independence is a lemma over those expression contracts plus the bounded battery."),
  "C20": ("proof", "TYPED / RAISES_ONLY / PURE / DETERMINISTIC / IDEMPOTENT obligations of the ten Parameter.clean bodies over an arbitrary dynamic value (recursive Val datatype), symbolic parameter configuration and program",
